@@ -265,10 +265,14 @@ def setLeader (st : Srv σ) (s : Int) (id : Str) : Srv σ := { st with leaders :
 def electorStart (ops : StoreOps σ ρ) (st : Srv σ) (s : Int) : Srv σ :=
   startLeading ops (setLeader st s st.me) s
 
-/-- `leaderElector.stopLeading(shardId)` (OnStoppedLeading): forget the leader if it is me, then the callback -/
-def electorStop (st : Srv σ) (s : Int) : Srv σ :=
-  let st1 := if leaderName st s == st.me then { st with leaders := st.leaders.del s } else st
-  stopLeading st1 s
+/-- the first half of `leaderElector.stopLeading(shardId)`: forget the leader if it is me — BEFORE the callback -/
+def electorStopPre (st : Srv σ) (s : Int) : Srv σ :=
+  if leaderName st s == st.me then { st with leaders := st.leaders.del s } else st
+
+/-- `leaderElector.stopLeading(shardId)` (OnStoppedLeading): forget the leader if it is me, then the callback
+    (`rateLimiter.stopLeading`). The callback may take long (final flush with retries): `Op.loseBegin` /
+    `Op.loseEnd` are its two halves, between which anything else may happen. -/
+def electorStop (st : Srv σ) (s : Int) : Srv σ := stopLeading (electorStopPre st s) s
 
 /-- is `shard` led by `me` according to the snapshot `leaders := GetLeaders()`: the snapshot is a Go map
     (one entry per shard), so `for s, leader := range leaders { s == shard && leader.Leader == r.identity }`
@@ -304,6 +308,8 @@ def serverInfo (st : Srv σ) : ServerInfo :=
 inductive Op
   | gain (s : Int)                       -- client-go OnStartedLeading → leaderElector.startLeading
   | lose (s : Int)                       -- client-go OnStoppedLeading → leaderElector.stopLeading
+  | loseBegin (s : Int)                  -- … its first half: the leader table is updated, the callback is entered
+  | loseEnd (s : Int)                    -- … its second half: the callback (rateLimiter.stopLeading) completes
   | newLeader (s : Int) (id : Str)       -- client-go OnNewLeader → leaderElector.setLeader
   | leaderCheck                          -- the periodic rateLimiter.sync → leaderCheck
   | listerAdd (u : Str)                  -- the informer cache gains / loses an upstream
@@ -317,6 +323,8 @@ deriving Repr, DecidableEq
 def step (ops : StoreOps σ ρ) (st : Srv σ) : Op → Srv σ × Reply ρ
   | .gain s => (electorStart ops st s, .unit)
   | .lose s => (electorStop st s, .unit)
+  | .loseBegin s => (electorStopPre st s, .unit)
+  | .loseEnd s => (stopLeading st s, .unit)
   | .newLeader s id => (setLeader st s id, .unit)
   | .leaderCheck => (leaderCheck ops st, .unit)
   | .listerAdd u => ({ st with lister := if st.lister.contains u then st.lister else st.lister ++ [u] }, .unit)
@@ -406,6 +414,71 @@ def stopWithRetry : Nat → List Bool → KStore → KStore × Bool × Nat
     retries. Answers the detached store after the retries and whether a `Stop` returned nil (`none`: no store). -/
 def stopLeadingK (api : List Bool) (st : Srv KStore) (s : Int) : Srv KStore × Option (KStore × Bool) :=
   (stopLeading st s, (st.stores.get s).map fun k => let r := stopWithRetry 10 api k; (r.1, r.2.1))
+
+/-! ## Overlapping starts and stops of ONE shard (k8s store with a flusher)
+
+`rateLimiter.startLeading` is not atomic: it puts the new store into `limitStoreMap`, releases the lock and then
+calls `Load()` (a List against the API, which may hang) and the initial upstream sync; on an error it takes ITS OWN
+store out of the map again (`if r.limitStoreMap[shardId] == limitStore`) and stops it. While a start hangs in its
+Load, the shard can be lost (`stopLeading` removes and stops whatever store is in the map) and gained again (a second
+`startLeading` installs a second store). Stores are identified by the order of their creation (index in `stores`);
+`stores[i] = true` means store i's `stopCh` is closed (its flusher has ended; `Stop()` closes it first, whatever
+becomes of the final flush). -/
+namespace Overlap
+
+structure OState where
+  leader : Bool            -- the elector records me as leader of the shard
+  map : Option Nat         -- limitStoreMap[shard]: which store
+  stores : List Bool       -- every store created so far: is its stopCh closed
+  pending : List Nat       -- starts that hang in Load
+deriving Repr, DecidableEq
+
+inductive OOp
+  | begin                  -- OnStartedLeading: elector.setLeader(me), rateLimiter.startLeading up to a hanging Load
+  | finishOk (id : Nat)    -- the hanging Load of start `id` returns nil; the initial sync follows
+  | finishFail (id : Nat)  -- the hanging Load of start `id` returns an error
+  | lose                   -- OnStoppedLeading: the elector forgets me, rateLimiter.stopLeading
+  | check                  -- a leaderCheck tick (its own start, if any, does not hang)
+deriving Repr, DecidableEq
+
+def init : OState := { leader := false, map := none, stores := [], pending := [] }
+
+/-- `startLeading` up to `Load()`: nothing if the shard has a store, else a new store enters the map -/
+def startBegin (st : OState) (hangs : Bool) : OState :=
+  match st.map with
+  | some _ => st
+  | none => { st with map := some st.stores.length, stores := st.stores ++ [false],
+                      pending := if hangs then st.pending ++ [st.stores.length] else st.pending }
+
+/-- the error path of `startLeading` for its own store `id`: out of the map only if it is still the map's store;
+    stopped in any case -/
+def startFail (st : OState) (id : Nat) : OState :=
+  { st with map := if st.map = some id then none else st.map, stores := st.stores.set id true,
+            pending := st.pending.erase id }
+
+/-- `stopLeading`: the map's store, if any, leaves the map and is stopped -/
+def dropStore (st : OState) : OState :=
+  match st.map with
+  | none => st
+  | some id => { st with map := none, stores := st.stores.set id true }
+
+def step (st : OState) : OOp → OState
+  | .begin => startBegin { st with leader := true } true
+  | .finishFail id => if id ∈ st.pending then startFail st id else st
+  | .finishOk id =>
+    if id ∈ st.pending then
+      -- the initial sync runs the upstream handler: leader without any store in the map = error = the error path
+      (if st.leader && st.map.isNone then startFail st id else { st with pending := st.pending.erase id })
+    else st
+  | .lose => dropStore { st with leader := false }
+  | .check => if st.leader then startBegin st false else dropStore st
+
+def run (ops : List OOp) : OState := ops.foldl step init
+
+/-- store i's flusher is running -/
+def running (st : OState) (i : Nat) : Prop := st.stores[i]? = some false
+
+end Overlap
 
 /-! ## A concrete store for the correspondence harness (local store, one global max-in-flight schema "fc"
     whose limit is never reached) -/
